@@ -306,6 +306,11 @@ def prec(e):
     return P_PRIM
 
 
+TIGHT_OK = {'+', '-', '*', '=', '!=', '<', '<=', '>', '>=', '~', '!~'}
+import re as _re
+_DATE_LIKE = _re.compile(r'\d{4}-\d{2}-\d{2}')
+
+
 class Style:
     """Printing options (G4)."""
 
@@ -330,7 +335,7 @@ class Style:
         return name
 
     def sp(self):
-        if self.space == 'single':
+        if self.space in ('single', 'tight'):
             return ' '
         r = self.rng.random()
         if self.comments and r < 0.15:
@@ -453,6 +458,11 @@ def _expr(e, style):
             sym = style.kw('NOT') + sp() + style.kw('IN')
         elif sym == 'IN':
             sym = style.kw('IN')
+        elif style.space == 'tight' and sym in TIGHT_OK:
+            tight = l + sym + r
+            # lexical facts a user must respect too: NNNN-NN-NN is a date literal, '--'/'/*' never arise, a sign after an operator is fine
+            if not _DATE_LIKE.search(tight[max(0, len(l) - 10):len(l) + len(sym) + 10]) and not (l[-1:] in '+-*/%<>=!~' or r[:1] in '%=*/' or l[-1:] == '.' or (sym == '-' and r[:1] == '-')):
+                return tight
         return l + sp() + sym + sp() + r
     if k == 'between':
         x, lo, hi = (to_text_expr(a, style, parent=e) for a in e.args)
